@@ -149,10 +149,15 @@ impl<'a> Runner<'a> {
             "prologue".into(),
             crate::eval::junk_bytes(inst.seed, "atom:prologue", inst.prologue_len),
         );
-        bind.atoms.insert(
-            "prologue2".into(),
-            crate::eval::junk_bytes(inst.seed, "atom:prologue2", inst.prologue_len),
-        );
+        // "prologue2" must differ from "prologue": one flipped bit, or one extra byte when it is empty
+        let mut p2 = crate::eval::junk_bytes(inst.seed, "atom:prologue", inst.prologue_len);
+        if p2.is_empty() {
+            p2.push(0x01);
+        } else {
+            let l = p2.len();
+            p2[l - 1] ^= 0x01;
+        }
+        bind.atoms.insert("prologue2".into(), p2);
         bind.atoms.insert("name".into(), inst.name_for("*").as_bytes().to_vec());
         Runner {
             scn,
@@ -491,6 +496,19 @@ impl<'a> Runner<'a> {
                 }
                 if !kinds_allow(&exp["kinds"], &k) {
                     self.viol(i, op, "error_kind", exp["kinds"].to_string(), k, &cause);
+                }
+                // C19: none of the plaintexts the model says are at stake may be in the caller's buffer
+                if let Some(nl) = exp.get("noleak").and_then(|x| x.as_array()) {
+                    for t in nl.clone() {
+                        let pt = self.ev(&t)?;
+                        if pt.len() >= 8 {
+                            let hit = pt.windows(8).any(|w| outbuf.windows(8).any(|o| o == w));
+                            if hit {
+                                self.viol(i, op, "plaintext_leak", "no 8-byte run of the rejected message's plaintext in the output buffer".into(),
+                                          format!("output buffer ({} bytes) contains plaintext of {}", outbuf.len(), t.to_string().chars().take(60).collect::<String>()), &cause);
+                            }
+                        }
+                    }
                 }
                 self.check_obs(i, op, id, &exp["obs"], &cause)?;
                 Ok(true)
